@@ -23,6 +23,9 @@ use crate::sched;
 use crate::tr;
 use crate::trace::{self, C};
 
+/// payload of the panic injected by the "owner dies" fault
+struct InjectedUnwind;
+
 struct Item {
     v: Value,
     m: J,
@@ -935,9 +938,25 @@ fn thread_body(t: usize, nthreads: usize, nops: u32, cfg: GenCfg, errs: Arc<Mute
                     if !bag.is_empty() && !(allow_big && chance(1, 4)) {
                         let i = draw(bag.len() as u32) as usize;
                         let it = bag.swap_remove(i);
-                        tr!("T{} drop #{}", t, i);
                         let Item { v, origins, .. } = it;
-                        libcall("drop", move || drop(v))?;
+                        if chance(1, 5) {
+                            // fault injection: the owner dies. The value is dropped while its thread is unwinding
+                            // from a panic (which the thread survives, as under catch_unwind or a joined thread);
+                            // a drop is a drop: the arena accounting must come out the same
+                            tr!("T{} drop #{} while unwinding from an injected panic", t, i);
+                            trace::bump(C::value_dropped_unwinding);
+                            libcall("drop while unwinding", move || {
+                                let r = std::panic::catch_unwind(std::panic::AssertUnwindSafe(move || {
+                                    let _held = v;
+                                    std::panic::panic_any(InjectedUnwind);
+                                }));
+                                drop(r);
+                            })?;
+                            let _ = crate::runner::take_last_panic();
+                        } else {
+                            tr!("T{} drop #{}", t, i);
+                            libcall("drop", move || drop(v))?;
+                        }
                         release(&origins);
                     } else if allow_big && chance(1, 3) {
                         // a document big enough for the node buffer's heap fallback, or just below it: the
